@@ -252,15 +252,26 @@ func caseReg(c *vlib.Cases, typ, fb string, rom bool, listings [][]mdl, hMask in
 // up and routed, so that a lookup made while a model was listed cannot colour the lookup made after the
 // endpoint re-listed without it (routing must follow the LATEST listing, whatever was asked before).
 // A nil listing in a round leaves that endpoint untouched; an empty one re-lists it with nothing.
+// plainRegistry: build the registry the factory builds with model_registry.enable_unifier: false (names resolve by exact match)
+var plainRegistry bool
+
 func caseRegHistory(c *vlib.Cases, typ, fb string, rom bool, rounds [][][]mdl, hMask int, spellings []string) {
 	all := mkEndpoints()
 	disc := &fakeDisc{all: all, updated: pick(all, hMask)}
 	rc := &config.ModelRoutingStrategy{Type: typ, Options: config.ModelRoutingStrategyOptions{FallbackBehavior: fb, DiscoveryRefreshOnMiss: rom, DiscoveryTimeout: time.Second}}
 	base := runtime.NumGoroutine()
-	reg := registry.NewUnifiedMemoryModelRegistry(vlib.QuietLogger(), nil, rc, disc)
+	reg, err := registry.NewModelRegistry(registry.RegistryConfig{Type: "memory", EnableUnifier: !plainRegistry, RoutingStrategy: rc, Discovery: disc}, vlib.QuietLogger())
+	if err != nil {
+		c.Emit(map[string]any{"kind": "reg", "typ": typ, "fb": fb, "rom": rom, "impl": map[string]any{"factory_error": err.Error()}})
+		return
+	}
 	ctx := context.Background()
 	snap := func() string {
-		us, _ := reg.GetUnifiedModels(ctx)
+		ur, ok := reg.(*registry.UnifiedMemoryModelRegistry)
+		if !ok {
+			return ""
+		}
+		us, _ := ur.GetUnifiedModels(ctx)
 		var rows []string
 		for _, u := range us {
 			var src []string
@@ -284,7 +295,11 @@ func caseRegHistory(c *vlib.Cases, typ, fb string, rom bool, rounds [][][]mdl, h
 			for _, m := range l {
 				ms = append(ms, mi(m))
 			}
-			if err := reg.RegisterModelsWithEndpoint(ctx, all[i], ms); err != nil {
+			if ur, ok := reg.(*registry.UnifiedMemoryModelRegistry); ok {
+				if err := ur.RegisterModelsWithEndpoint(ctx, all[i], ms); err != nil {
+					continue
+				}
+			} else if err := reg.RegisterModels(ctx, all[i].URLString, ms); err != nil {
 				continue
 			}
 			effective[i] = append([]mdl{}, l...)
@@ -313,7 +328,7 @@ func caseRegHistory(c *vlib.Cases, typ, fb string, rom bool, rounds [][][]mdl, h
 			impl["err"] = rerr != nil
 			impl["lookup"] = lk
 			c.Emit(map[string]any{"kind": "reg", "typ": typ, "fb": fb, "rom": rom, "listings": eff, "healthy": ids(hMask),
-				"model": sp, "round": ri, "impl": impl})
+				"model": sp, "round": ri, "impl": impl, "plain": plainRegistry})
 		}
 	}
 }
@@ -610,7 +625,13 @@ func main() {
 		{{{"Qwen2.5-Coder:7B", ""}}, {{"Qwen2.5-Coder:7B", ""}}, nil, nil},
 		{{{"other", ""}}, nil, nil, nil},
 		{nil, {}, nil, nil}}, 0b0011, []string{"qwen2.5-coder:7b", "Qwen2.5-Coder:7B", "QWEN2.5-CODER:7B", "other", "nope"})
-	nhist := 60
+	plainRegistry = true
+	caseRegHistory(c, "strict", "compatible_only", false, [][][]mdl{
+		{{{"Qwen2.5-Coder:7B", ""}}, {{"Qwen2.5-Coder:7B", ""}}, nil, nil},
+		{{{"other", ""}}, nil, nil, nil},
+		{nil, {}, nil, nil}}, 0b0011, []string{"qwen2.5-coder:7b", "Qwen2.5-Coder:7B", "QWEN2.5-CODER:7B", "other", "nope"})
+	plainRegistry = false
+	nhist := 90
 	if thorough {
 		nhist = 1500
 	}
@@ -638,8 +659,10 @@ func main() {
 				rounds[ri][e] = l
 			}
 		}
+		plainRegistry = i%3 == 2
 		caseRegHistory(c, cf.typ, cf.fb, cf.rom, rounds, 1+r.Intn(15), hsp)
-		c.Count("reghist." + cf.typ)
+		c.Count("reghist." + cf.typ + map[bool]string{false: "", true: ".plain-registry"}[plainRegistry])
+		plainRegistry = false
 	}
 
 	// production stack
